@@ -1,15 +1,38 @@
 """C12 — version negotiation, feature gating and cross-version payload interop."""
 import os
 
+import json
+
 from checks import brokerfam
-from vlib import interop
+from vlib import interop, schedx
 
 PROP = "C12"
 PINS = {}
 MIXES = ["all", "calls", "events", "abuse"]
 
 
+SCHED = {"quick": (40, 4, 60), "thorough": (600, 16, 60)}     # programs per shard, shards, ops per client
+
+
+def select(m):
+    """failures of the scheduler harness that are about version gating: a client that negotiated less than
+    1.20 is closed by the broker / stops, i.e. it used (or was sent) a message newer than its version"""
+    d = m["detail"]
+    old = "(protocol 1.1" in d
+    if m["tag"] == "closed-by-broker" and old:
+        return "client-gating-closed-by-broker: " + d[:400]
+    if m["class"].startswith("RUN") and old:
+        return "client-gating-run-ended: " + m["class"] + ": " + d[:400]
+    return None
+
+
 def extra(o, tier, seed):
+    per, shards, ops = SCHED[tier]
+    schedx.run(o, PROP, select, "client_side_version_gating", per, shards, ops, seed, gen_opts="--no-event-theme")
+    o.assumptions.append("client-side gating (aldrin/src/client.rs): the send gates are tied to the protocol table "
+                         "(C12_client_send_gates); real clients negotiating 1.14..1.19 are exercised by harness sched "
+                         "(Connect2 minor clamped in the transport tap, 1.14 through connect1): no such client may be closed "
+                         "by the broker or stop with an error")
     interop.run(o, PROP, tier, seed)
     try:
         from vlib import accept
@@ -23,4 +46,8 @@ def run(tier, seed):
 
 
 def replay(path):
+    r = json.load(open(path))
+    if r.get("input", {}).get("case"):
+        from checks import c06
+        return c06.replay(path)
     return brokerfam.replay(PROP, path)
